@@ -163,9 +163,20 @@ Qed.
 
 Lemma ev_step_placed pending e a : snd (ev_step pending e) = Some a -> In a (fst (ev_step pending e)).
 Proof.
-  destruct e as [r|sb sq]; cbn.
+  destruct e as [r|sb sq|sb]; cbn.
   - apply publish_step_placed.
   - intros H. injection H as <-. apply in_or_app. right. left. reflexivity.
+  - discriminate.
+Qed.
+
+(* what is queued stays queued across the recreate of any subscription and across a republish *)
+Lemma ev_step_keeps_pending pending e a :
+  (forall r, e <> EPublish r) -> In a pending -> In a (fst (ev_step pending e)).
+Proof.
+  intros He Hin. destruct e as [r|sb sq|sb]; cbn.
+  - exfalso. eapply He. reflexivity.
+  - apply in_or_app. left. exact Hin.
+  - exact Hin.
 Qed.
 
 Lemma ev_delivered_placed : forall h pending a,
